@@ -76,7 +76,9 @@ def _batch(prop, seed, tier, idxs, want_runs):
     for idx in idxs:
         try:
             run = get_run(mod, seed, tier, idx)
+            t_run = time.time()
             res = execute_run(mod, run)
+            res['secs'] = time.time() - t_run
         except BaseException as e:  # noqa: B902
             out.append({'idx': idx, 'harness_error': ''.join(
                 traceback.format_exception(type(e), e, e.__traceback__))[-3000:]})
@@ -283,6 +285,7 @@ def run_check(prop, tier, seed=None, workers=None, runs=None, wall=None):
     harness_errors = []
     evaluations = 0
     truncated = False
+    slow = []
 
     pool = _pool(workers)
     try:
@@ -295,7 +298,9 @@ def run_check(prop, tier, seed=None, workers=None, runs=None, wall=None):
                 if time.time() - t0 > cfg['wall']:
                     truncated = True
                     return
-                idxs = list(range(next_idx, min(next_idx + batch, total)))
+                # fixed (enumeration) runs are long: one per task, and they go first
+                size = 1 if next_idx < n_fixed else batch
+                idxs = list(range(next_idx, min(next_idx + size, total)))
                 next_idx = idxs[-1] + 1
                 pending.add(pool.submit(_batch, prop, seed, tier, idxs, sample_idx))
 
@@ -317,6 +322,7 @@ def run_check(prop, tier, seed=None, workers=None, runs=None, wall=None):
                         continue
                     evaluations += 1
                     digests[res['idx']] = res['digest']
+                    slow.append((round(res.get('secs', 0), 2), res['idx']))
                     for k in ('stats', 'faults', 'probes'):
                         agg[k].update(res[k])
                     if res['nontrivial']:
@@ -421,6 +427,8 @@ def run_check(prop, tier, seed=None, workers=None, runs=None, wall=None):
     # ------------------------------------------------------------------ report
     print('runs=%d (fixed %d) distinct_nontrivial=%d states=%d wall=%.1fs runs/h=%d'
           % (evaluations, n_fixed, len(shapes), len(states), wall_s, coverage['runs_per_hour']))
+    print('slowest runs (s, idx):', sorted(slow, reverse=True)[:6],
+          'cpu-s total %.0f' % sum(x[0] for x in slow))
     print('logical steps:', dict(agg['stats']))
     print('faults fired :', dict(agg['faults']))
     print('reach probes :', dict(agg['probes']))
